@@ -108,7 +108,7 @@ func instrumentSched(tmp, moduleDir string, harnessPkgPath string, pkgPaths []st
 	cfg := &packages.Config{
 		Mode:       packages.NeedName | packages.NeedFiles | packages.NeedCompiledGoFiles | packages.NeedSyntax | packages.NeedTypes | packages.NeedTypesInfo | packages.NeedImports,
 		Dir:        moduleDir,
-		BuildFlags: []string{"-tags=verif"},
+		BuildFlags: []string{"-tags=verif", modfileFlag(moduleDir)},
 		Env:        goEnv(),
 		Overlay:    ov,
 	}
